@@ -225,7 +225,7 @@ func planSrcsim(tier string, corpus []Prog) *srcPlan {
 			}
 			n := len(simdisk.TodoLines(src))
 			var picks []int
-			if thorough {
+			if thorough || os.Getenv("VERIF_TODO_ALL") != "" {
 				for k := 0; k < n; k++ {
 					picks = append(picks, k)
 				}
